@@ -105,7 +105,7 @@ def sanity_check_format_result(formatted_text, original_text):
 
     o_tokens = _collapse_newline_tokens(original_tokens)
     f_tokens = _collapse_newline_tokens(formatted_tokens)
-    for i in range(len(o_tokens)):
+    for i in range(min(len(o_tokens), len(f_tokens))):
         if (
             o_tokens[i].symbol != f_tokens[i].symbol
             or o_tokens[i].text.strip() != f_tokens[i].text.strip()
@@ -115,6 +115,10 @@ def sanity_check_format_result(formatted_text, original_text):
                     i, o_tokens[i], f_tokens[i]
                 )
             ]
+    if len(o_tokens) != len(f_tokens):
+        return [
+            "BUG: Symbol count differs: {} vs {}".format(len(o_tokens), len(f_tokens))
+        ]
     return []
 
 
